@@ -25,7 +25,7 @@ def listMax : List Rat → Option Rat
   | [] => none
   | x :: xs => some (xs.foldl ratMax x)
 
-def listSum (xs : List Rat) : Rat := xs.foldl (· + ·) 0
+def listSum (xs : List Rat) : Rat := xs.sum
 
 /-- `numpy.allclose(a, b)` on scalars with default tolerances: `|a-b| ≤ 1e-8 + 1e-5·|b|`. -/
 def allclose1 (a b : Rat) : Bool :=
